@@ -31,5 +31,5 @@ rsync -a --exclude .git /repo/ $scratch/src/
 mkdir -p $scratch/verif; cp /verif/known_findings.jsonl $scratch/verif/
 ( cd $scratch/src && patch -p1 -s --no-backup-if-mismatch -i "$src/patch.diff" ) || { echo "cannot apply to the scratch copy"; rm -rf $scratch; exit 2; }
 cd /verif
-GOTOOLCHAIN=local GOWORK=off ./bin/xcheck -prop all -repo $scratch/src -verif $scratch/verif 2>&1 | grep -E '^(VIOLATED|UNDECIDED|CHECKER)' | cut -c1-240 | sed -E 's/^(VIOLATED|UNDECIDED) (C[0-9]+)/\2 FIRES: \1 \2/' | sed "s#$scratch/src/##g"
+GOTOOLCHAIN=local GOWORK=off ${XCHECK:-/verif/bin/xcheck} -prop all -repo $scratch/src -verif $scratch/verif 2>&1 | grep -E '^(VIOLATED|UNDECIDED|CHECKER)' | cut -c1-240 | sed -E 's/^(VIOLATED|UNDECIDED) (C[0-9]+)/\2 FIRES: \1 \2/' | sed "s#$scratch/src/##g"
 rm -rf $scratch
